@@ -53,6 +53,8 @@ pub struct Commit {
 	pub logged_wal: Option<u64>,
 	/// WAL number of the memtable that received the (final) apply
 	pub applied_wal: Option<u64>,
+	/// horizon of the transaction when it began
+	pub start_seq: u64,
 }
 
 impl Commit {
